@@ -102,4 +102,7 @@ def step_ok(rec, variant):
         return f"the definition failed: {rec.get('exc')}"
     if rec['behaviour'] != rec['reference']:
         return f"the class does not behave per its declaration: {rec['behaviour']} vs {rec['reference']}"
+    for v0, ok in rec.get('earlier', []):
+        if not ok:
+            return f"a class defined EARLIER in this process (declaration {v0[:80]}) no longer behaves per its own declaration after this definition"
     return None
